@@ -1,15 +1,36 @@
 //! `store (a:<payload>:<class> | f:<payload>:<class>)*` on `Storage<V>` where `V`'s equality is deliberately
-//! irreflexive (class 0) and asymmetric (class >= 100 also equals class + 1 on the right).
+//! irreflexive (class 0) and asymmetric (class >= 100 also equals class + 1 on the right), and relates different enum variants.
 use rspirv::sr::storage::{Storage, Token};
 
+/// an enum on purpose: equality relates values of *different* variants (the variant is the payload's parity), so a
+/// `fetch_or_append` that pre-filters on the variant tag is observable
 #[derive(Debug, Clone, Copy)]
-struct V {
-    payload: u32,
-    class: u32,
+enum V {
+    Odd { payload: u32, class: u32 },
+    Even { payload: u32, class: u32 },
+}
+impl V {
+    fn new(payload: u32, class: u32) -> V {
+        if payload % 2 == 1 {
+            V::Odd { payload, class }
+        } else {
+            V::Even { payload, class }
+        }
+    }
+    fn payload(&self) -> u32 {
+        match *self {
+            V::Odd { payload, .. } | V::Even { payload, .. } => payload,
+        }
+    }
+    fn class(&self) -> u32 {
+        match *self {
+            V::Odd { class, .. } | V::Even { class, .. } => class,
+        }
+    }
 }
 impl PartialEq for V {
     fn eq(&self, o: &V) -> bool {
-        self.class != 0 && (self.class == o.class || (self.class >= 100 && self.class + 1 == o.class))
+        self.class() != 0 && (self.class() == o.class() || (self.class() >= 100 && self.class() + 1 == o.class()))
     }
 }
 
@@ -37,9 +58,9 @@ pub fn store(rest: &str) -> String {
         rest,
         |v| {
             let p: Vec<&str> = v.split(':').collect();
-            V { payload: p[0].parse().unwrap(), class: p[1].parse().unwrap() }
+            V::new(p[0].parse().unwrap(), p[1].parse().unwrap())
         },
-        |v: &V| format!("{}", v.payload),
+        |v: &V| format!("{}", v.payload()),
     )
 }
 
